@@ -323,6 +323,15 @@ def handleData (n : Node) (src dst len : Nat) (buf : List Nat) : Node × Option 
         let n1 := if a.reqCTS > 0 ∧ iDev.isSome then sendAbort n a.pgn src i 3 else n
         (n1.setSlot j (freeMessage a), none)
 
+/-- the slot as the first (or only) frame of a message that does not come by the transport protocol initialises it
+(`TPRequireCTS` / `TPMaxPackets` are left as they were) -/
+def firstSlot (old : Option Slot) (fast : Bool) (prio pgn src dst now32 len : Nat) (buf : List Nat) : Slot :=
+  { free := false, tp := false, pgn := pgn, src := src, dst := dst, prio := prio &&& 7, msgTime := now32,
+    dataLen := if fast then buf.getD 1 0 else len,
+    data := if fast then copyBuf [] 2 len buf else copyBuf [] 0 len buf,
+    lastFrame := if fast then buf.getD 0 0 else 0,
+    reqCTS := (old.map (·.reqCTS)).getD 0, maxPackets := (old.map (·.maxPackets)).getD 0 }
+
 /-- the rest of `SetN2kCANBufMsg`: single frames and fast packets (C02's subject; here for the slot interplay) -/
 def handleOther (n : Node) (prio pgn src dst len : Nat) (buf : List Nat) : Node × Option Nat :=
   let ck := checkKnown pgn
@@ -345,13 +354,7 @@ def handleOther (n : Node) (prio pgn src dst len : Nat) (buf : List Nat) : Node 
     match ff.2 with
     | none => (n1, none)
     | some j =>
-      let a : Slot := { free := false, tp := false, pgn := pgn, src := src, dst := dst, prio := prio &&& 7, msgTime := millis32 n.s.now,
-                        dataLen := if ck.2 then buf.getD 1 0 else len,
-                        data := if ck.2 then copyBuf [] 2 len buf else copyBuf [] 0 len buf,
-                        lastFrame := if ck.2 then b0 else 0, reqCTS := 0, maxPackets := 0 }
-      let a := match n1.slots[j]? with
-        | some old => { a with reqCTS := old.reqCTS, maxPackets := old.maxPackets }
-        | none => a
+      let a := firstSlot (n1.slots[j]?) ck.2 prio pgn src dst (millis32 n.s.now) len buf
       (n1.setSlot j a, if a.data.length ≥ a.dataLen then some j else none)
 
 def buf8 (f : Frame) : List Nat := (f.data ++ List.replicate 8 0xAA).take 8
